@@ -109,6 +109,15 @@ def replay(case):
     from pyformlang.cfg import Terminal
     evs.append(cfgh.result_event("substitute", A, guard.call(lambda: a.substitute({Terminal(t): b}), timeout=4.0),
                                  H=B, L=Lw, t=cfgh.tt(t), same=case["same"]))
+    # two terminals substituted at once, each grammar mentioning the other key, both insertion orders of the dictionary
+    t2 = cfgh.TERM_POOLS[case["tpool"]]["b"]
+    if "tpoolB" not in case and t != t2:
+        for first in (0, 1):
+            pairs = [(Terminal(t), b), (Terminal(t2), a)]
+            if first:
+                pairs.reverse()
+            evs.append(cfgh.result_event("substitute2", A, guard.call(lambda: a.substitute(dict(pairs)), timeout=4.0),
+                                         H=B, H2=A, L=Lw, t=cfgh.tt(t), t2=cfgh.tt(t2), order=first))
     # conversions of conversions: the operations applied to the normal form / epsilon-free form of a closure or union
     for first in (a.get_closure, a.get_positive_closure, lambda: a.union(b)):
         r1 = guard.call(first, timeout=4.0)
